@@ -338,10 +338,108 @@ def enum_roots(seed):
                 guaranteed = content != f"new content of {rel}\n" and under(protect_dirs) and not under(masked) and not (ignored_abs and rel.startswith(ignored_abs + "/"))
                 if guaranteed and not os.path.exists(os.path.join(root, rel)) and len(fails) < 4:
                     fails.append({"model": model, "detail": f"unmerge removed protected {rel} although its content differs from what the package recorded (env.d {envd!r})"})
+        # merges through the engine's own wiring (MergeEngine.install works out itself which of the incoming entries exist on the root), with the
+        # protected file reached through a directory that is a symlink on the live root -- leading out of the protected tree, or staying inside it
+        from pkgcore.merge import engine as _engine2, triggers as _mt2
+
+        class _Quiet:
+            def __getattr__(self, n):
+                return lambda *a, **k: None
+        for layout, link, target in (("plain directory", None, None), ("etc/app is a symlink leading out of /etc", "etc/app", "../opt/app/etc"), ("etc/app is a symlink to a directory inside /etc", "etc/app", "app-1.0")):
+            cases += 1
+            root = os.path.join(scratch, "eng-" + layout.replace(" ", "_").replace("/", "_"))
+            img, tmp_ = root + ".img", root + ".tmp"
+            real_dir = os.path.normpath(os.path.join(root, "etc", target)) if link else os.path.join(root, "etc/app")
+            os.makedirs(real_dir)
+            os.makedirs(os.path.join(root, "etc"), exist_ok=True)
+            os.makedirs(tmp_)
+            if link:
+                os.symlink(target, os.path.join(root, link))
+            open(os.path.join(real_dir, "foo.conf"), "w").write("edited by the user\n")
+            open(os.path.join(root, "etc/other.conf"), "w").write("edited by the user too\n")
+            os.makedirs(os.path.join(img, "etc/app"))
+            open(os.path.join(img, "etc/app/foo.conf"), "w").write("new foo\n")
+            open(os.path.join(img, "etc/other.conf"), "w").write("new other\n")
+            model = {"through_the_merge_engine": "install", "layout": layout}
+            try:
+                pkg_ = types.SimpleNamespace(contents=contents.contentsSet(livefs.scan(img, offset=img)), cpvstr="cat/pkg-1")
+                e_ = _engine2.MergeEngine.install(tmp_, pkg_, offset=root, observer=_Quiet(), disable_plugins=True)
+                for trg in (t.ConfigProtectInstall(), _mt2.merge()):
+                    trg.register(e_)
+                for hook in ("sanity_check", "pre_merge", "merge", "post_merge", "final"):
+                    e_.execute_hook(hook)
+            except Exception as e:
+                if len(fails) < 4:
+                    fails.append({"model": model, "detail": f"MergeEngine.install ({layout}) raised {type(e).__name__}: {e}"})
+                continue
+            probs = []
+            for d_, n_, old_, new_ in ((real_dir, "foo.conf", "edited by the user\n", "new foo\n"), (os.path.join(root, "etc"), "other.conf", "edited by the user too\n", "new other\n")):
+                now = open(os.path.join(d_, n_)).read()
+                if now != old_:
+                    probs.append(f"the edited {os.path.relpath(os.path.join(d_, n_), root)} was overwritten (now {now!r})")
+                cfg = os.path.join(d_, "._cfg0000_" + n_)
+                if not os.path.exists(cfg) or open(cfg).read() != new_:
+                    probs.append(f"the incoming file was not put beside it as ._cfg0000_{n_} (directory holds {sorted(os.listdir(d_))})")
+            if probs and len(fails) < 4:
+                fails.append({"model": model, "detail": f"MergeEngine.install of etc/app/foo.conf and etc/other.conf over edited copies, {layout}: " + "; ".join(probs[:3])})
+        # ... and a package that ships a symlink where the root has an edited regular file, beside an ordinary edited file
+        cases += 1
+        root = os.path.join(scratch, "eng-symlink-over-file")
+        img, tmp_ = root + ".img", root + ".tmp"
+        for d_ in (os.path.join(root, "etc"), os.path.join(img, "etc"), tmp_):
+            os.makedirs(d_)
+        open(os.path.join(root, "etc/localtime"), "w").write("the user's own zone data\n")
+        open(os.path.join(root, "etc/other.conf"), "w").write("edited by the user too\n")
+        os.symlink("../usr/share/zoneinfo/UTC", os.path.join(img, "etc/localtime"))
+        open(os.path.join(img, "etc/other.conf"), "w").write("new other\n")
+        model = {"through_the_merge_engine": "install", "layout": "the package ships etc/localtime as a symlink, the root has it as an edited regular file"}
+        try:
+            pkg_ = types.SimpleNamespace(contents=contents.contentsSet(livefs.scan(img, offset=img)), cpvstr="cat/pkg-1")
+            e_ = _engine2.MergeEngine.install(tmp_, pkg_, offset=root, observer=_Quiet(), disable_plugins=True)
+            for trg in (t.ConfigProtectInstall(), _mt2.merge()):
+                trg.register(e_)
+            for hook in ("sanity_check", "pre_merge", "merge", "post_merge", "final"):
+                e_.execute_hook(hook)
+            probs = []
+            if os.path.islink(os.path.join(root, "etc/localtime")) or open(os.path.join(root, "etc/localtime")).read() != "the user's own zone data\n":
+                probs.append("the edited regular file etc/localtime was replaced by the package's symlink")
+            if open(os.path.join(root, "etc/other.conf")).read() != "edited by the user too\n":
+                probs.append("the edited etc/other.conf was overwritten")
+            elif not os.path.exists(os.path.join(root, "etc/._cfg0000_other.conf")):
+                probs.append("etc/other.conf: the incoming file was not put beside it as ._cfg0000_other.conf")
+            if probs and len(fails) < 4:
+                fails.append({"model": model, "detail": f"MergeEngine.install, {model['layout']}, etc/other.conf edited as well: " + "; ".join(probs) + f" (etc holds {sorted(os.listdir(os.path.join(root, 'etc')))})"})
+        except Exception as e:
+            if len(fails) < 4:
+                fails.append({"model": model, "detail": f"MergeEngine.install ({model['layout']}) raised {type(e).__name__}: {e}"})
+        # ... and its unmerge counterpart: the package recorded etc/localtime as a symlink, the root has an edited regular file there now
+        cases += 1
+        root = os.path.join(scratch, "eng-un-symlink-over-file")
+        img, tmp_ = root + ".img", root + ".tmp"
+        for d_ in (os.path.join(root, "etc"), os.path.join(img, "etc"), tmp_):
+            os.makedirs(d_)
+        open(os.path.join(root, "etc/localtime"), "w").write("the user's own zone data\n")
+        open(os.path.join(root, "etc/foo.conf"), "w").write("edited by the user\n")
+        os.symlink("../usr/share/zoneinfo/UTC", os.path.join(img, "etc/localtime"))
+        open(os.path.join(img, "etc/foo.conf"), "w").write("as installed\n")
+        model = {"through_the_merge_engine": "uninstall", "layout": "the package recorded etc/localtime as a symlink, the root has it as an edited regular file"}
+        try:
+            pkg_ = types.SimpleNamespace(contents=contents.contentsSet(livefs.scan(img, offset=img)), cpvstr="cat/pkg-1")
+            e_ = _engine2.MergeEngine.uninstall(tmp_, pkg_, offset=root, observer=_Quiet(), disable_plugins=True)
+            for trg in (t.ConfigProtectUninstall(), _mt2.unmerge()):
+                trg.register(e_)
+            for hook in ("sanity_check", "pre_unmerge", "unmerge", "post_unmerge", "final"):
+                e_.execute_hook(hook)
+            probs = [f"the edited etc/{n_} was removed" for n_ in ("foo.conf", "localtime") if not os.path.exists(os.path.join(root, "etc", n_))]
+            if probs and len(fails) < 4:
+                fails.append({"model": model, "detail": f"MergeEngine.uninstall, {model['layout']}, etc/foo.conf edited as well: " + "; ".join(probs)})
+        except Exception as e:
+            if len(fails) < 4:
+                fails.append({"model": model, "detail": f"MergeEngine.uninstall ({model['layout']}) raised {type(e).__name__}: {e}"})
     finally:
         shutil.rmtree(scratch, ignore_errors=True)
     return {"name": "C21.config_protect.bounded_enumeration", "bound": "60 seeded scratch roots: 5 env.d variants (CONFIG_PROTECT / _MASK with and without trailing slash, COLLISION_IGNORE naming a directory), 4 of 7 files each absent / "
-            "identical / edited, random pending ._cfg files (identical or not), ConfigProtectInstall + merge_contents + restore, then local edits + ConfigProtectUninstall + unmerge_contents (every other root through the merge engine's own wiring: MergeEngine.uninstall, or MergeEngine.replace by a version that no longer ships the files)", "cases": cases, "failures": fails}
+            "identical / edited, random pending ._cfg files (identical or not), ConfigProtectInstall + merge_contents + restore, then local edits + ConfigProtectUninstall + unmerge_contents (every other root through the merge engine's own wiring: MergeEngine.uninstall, or MergeEngine.replace by a version that no longer ships the files); 3 merges through MergeEngine.install with the protected directory plain, a symlink leading out of /etc and a symlink staying inside it", "cases": cases, "failures": fails}
 
 
 def tasks():
